@@ -534,7 +534,7 @@ pub fn run(r: &Report) {
          + 2 with an issuance whose inflation keys are blinded while its amount is explicit / absent \
          + the repository's real-network transaction; tampers at EVERY applicable position: explicit \
          amount +-1 (outputs, fee), asset swapped, value / asset commitment replaced by another valid one and by each other output's, made \
-         explicit, each range / surjection proof removed, exchanged with each other output's, truncated, bit-flipped (thorough: every byte for 32 base transactions and every 16th for the rest; \
+         explicit, each range / surjection proof removed, exchanged with each other output's, truncated, bit-flipped (thorough: every byte for 8 base transactions and every 16th for the rest; \
          quick: stride 64 / 16), script of each blinded output changed, issuance amount +-1 / removed / tokens+1 / entropy changed, each spent \
          output's value / asset changed, spent list shorter / longer (must be UtxoInputLenMismatch); (b) complete all-explicit product: 1..2 \
          inputs x assets {A,B} x values, issuance {none, amount, amount+tokens}, 0..2 outputs over assets {A,B,issued,token} x values 0..3 x \
@@ -544,11 +544,11 @@ pub fn run(r: &Report) {
     // (a)
     let cases = c04::verifying_cases(r.seed, r.tier.pick(60, 400));
     r.set_extra("verifying_base_transactions", json!(cases.len()));
-    // thorough: every bit position of every proof for the first 32 base transactions, every 16th byte for the rest
+    // thorough: every bit position of every proof for the first 8 base transactions, every 16th byte for the rest
     // (a 4 KiB range proof costs ~5 ms per verification; all positions of all 400 bases would be a day of CPU)
     cases.par_iter().enumerate().for_each(|(k, (sc, tx, spent))| {
         let label = format!("{}in/{}marked", sc.inputs.len(), sc.outputs.iter().filter(|o| matches!(o.kind, OutKind::Marked(_))).count());
-        check_tampers(r, &label, tx, spent, if thorough && k >= 32 { 16 } else { stride });
+        check_tampers(r, &label, tx, spent, if thorough && k >= 8 { 16 } else { stride });
     });
     if let Some((_, tx, _)) = cases.first() {
         r.sample(json!({"base_tx_outputs": tx.output.len(), "tamper_classes_example": ["rangeproof-bit-flipped", "value-commitment-from-other-output", "spent-output-asset-changed/confidential"]}));
@@ -715,11 +715,26 @@ fn blinded_keys_issuance_cases() -> Vec<(String, Transaction, Vec<TxOut>)> {
             if let Some(v) = amount {
                 outputs.push(plain(issued, v, 2));
             }
-            // the token output: explicit asset, confidential value whose blinding factor balances the keys commitment
+            // the token output: fully blinded (asset and value); its surjection proof is over the domain that contains the
+            // token's unblinded generator (the issuance pseudo-input), its value blinding factor balances the keys commitment
             let spk = template_script(3, 3);
-            let msg = RangeProofMessage::new(token, zero_abf);
-            let (v_conf, proof) = CValue::Explicit(tokens).blind_with_shared_secret(s, r_keys, gen::sk(7980 + k as u64), &spk, &msg).map_err(|e| format!("{:?}", e))?;
-            outputs.push(TxOut { asset: Asset::Explicit(token), value: v_conf, nonce: Nonce::Null, script_pubkey: spk, witness: TxOutWitness { surjection_proof: None, rangeproof: Some(Box::new(proof)) } });
+            let _ = RangeProofMessage::new(token, zero_abf);
+            let zero_vbf = ValueBlindingFactor::zero();
+            let mut in_secrets = vec![elements::TxOutSecrets::new(c04::asset_a(), zero_abf, 100, zero_vbf)];
+            if let Some(v) = amount {
+                in_secrets.push(elements::TxOutSecrets::new(issued, zero_abf, v, zero_vbf));
+            }
+            in_secrets.push(elements::TxOutSecrets::new(token, zero_abf, tokens, r_keys));
+            let mut out_secrets = vec![elements::TxOutSecrets::new(c04::asset_a(), zero_abf, 98, zero_vbf), elements::TxOutSecrets::new(c04::asset_a(), zero_abf, 2, zero_vbf)];
+            if let Some(v) = amount {
+                out_secrets.push(elements::TxOutSecrets::new(issued, zero_abf, v, zero_vbf));
+            }
+            let out_refs: Vec<&elements::TxOutSecrets> = out_secrets.iter().collect();
+            let mut rng = DetRng::new(0, 0xC05E, k as u64);
+            let out_abf = AssetBlindingFactor::from_slice(gen::tweak(7990 + k as u64).as_ref()).unwrap();
+            let rpk = zkp::PublicKey::from_secret_key(s, &gen::sk(7985 + k as u64));
+            let (tok_out, _) = TxOut::with_secrets_last(&mut rng, s, tokens, spk, rpk, token, gen::sk(7980 + k as u64), out_abf, &in_secrets, &out_refs).map_err(|e| format!("{:?}", e))?;
+            outputs.push(tok_out);
             outputs.push(TxOut::new_fee(2, c04::asset_a()));
             Ok((Transaction { version: 2, lock_time: LockTime::ZERO, input: vec![input], output: outputs }, spent))
         });
